@@ -4,6 +4,7 @@ import (
 	"bytes"
 	"context"
 	"encoding/json"
+	"errors"
 	"fmt"
 	"math/rand"
 	"os"
@@ -30,23 +31,33 @@ import (
 // the property's oracle by the parent), not the end of the driver.
 const syncLockHelperArg = "-synclock-helper"
 
-// Bounds.  A run takes a few hundred milliseconds.
+// Bounds.  A run takes a few hundred milliseconds; log entries follow each other within microseconds
+// to milliseconds (the longest silent stretches are the probe's wait for a plugin to be configured and
+// its 100 ms window).
 const (
+	slStallBound = 20 * time.Second  // no log entry for that long: the run is stuck, dumped as it stands (an observation)
 	slRunBound   = 120 * time.Second // a run that is not over by then is dumped as it stands (an observation)
 	slChildBound = 300 * time.Second // the parent kills a child that did not even dump (machinery failure)
 	slProbeGrace = 100 * time.Millisecond
-	slMaxFailing = 5 // failing runs after which the stream stops: the verdict is settled
+	slMaxFailing = 3 // failing runs after which the stream stops: the verdict is settled
 )
 
 // what the parent asks of one run
 type slSpec struct {
-	Dir     string `json:"dir"` // scratch directory, created and removed by the parent
-	R       int    `json:"r"`
-	P       int    `json:"p"`
-	N       int    `json:"n"`
-	Starts  []int  `json:"starts"`
-	DblSeed int64  `json:"dbl_seed"` // PRNG of the choice which blocks are released twice
-	Probe   bool   `json:"probe"`    // start with the two-blocks-one-released-twice scenario
+	Dir      string      `json:"dir"` // scratch directory, created and removed by the parent
+	R        int         `json:"r"`
+	P        int         `json:"p"`
+	N        int         `json:"n"`
+	Starts   []int       `json:"starts"`
+	Modes    []string    `json:"modes"`    // per plugin: ok | syncerr (its Synchronize handler fails) | syncdrop (it disconnects during synchronisation)
+	DblSeed  int64       `json:"dbl_seed"` // PRNG of the choice which blocks are released twice, and how
+	Probe    int         `json:"probe"`    // 0 none, 1 two blocks held / one released twice, 2 released, ANOTHER block taken, released again
+	Restarts []slRestart `json:"restarts"` // after the stream: plugins that stop and register again under the same name
+}
+
+type slRestart struct {
+	Plugin  int  `json:"plugin"`
+	Control bool `json:"control"` // a request between the disconnection and the re-registration (flushes the closed instance)
 }
 
 type slResult struct {
@@ -56,24 +67,35 @@ type slResult struct {
 
 // one entry of the API-level log (Model/SyncLock.v: lev)
 type logEv struct {
-	Kind string   `json:"k"` // acq rel rel2 recv ret store enter srecv sret
+	Kind string   `json:"k"` // acq rel rel2 recv ret store enter srecv sret close
 	G    string   `json:"g,omitempty"`
-	P    string   `json:"p,omitempty"` // plugin name, or (enter/sret, before resolution) the sync session
+	P    string   `json:"p,omitempty"` // plugin instance, or (enter/sret, before resolution) the sync session
 	C    string   `json:"c,omitempty"`
 	IDs  []string `json:"ids,omitempty"`
 	OK   bool     `json:"ok,omitempty"`
 	sess int
 }
 
-type slPlugin struct {
-	run      *slRun
-	name     string
-	stub     stub.Stub
+// one connection of a plugin = one plugin INSTANCE of the model: "idx-name", then "idx-name#2", ...
+type slSession struct {
+	inst     string
 	snapshot []string
 	creates  []string
 	syncs    int
-	sess     int
-	closed   int32
+	sess     int  // the SyncFn invocation that synchronised it, -1: none
+	started  bool // stub.Start returned nil: the plugin is configured, its registration is pending or done
+	stopped  bool // disconnected by the harness (restart)
+}
+
+type slPlugin struct {
+	run      *slRun
+	name     string
+	mode     string
+	stub     stub.Stub
+	cur      *slSession
+	sessions []*slSession
+	closes   int32 // connection-closed notifications of the stub
+	stops    int32 // disconnections the harness (or the plugin's own script) caused
 }
 
 type slRun struct {
@@ -91,12 +113,17 @@ type slRun struct {
 	// held: sync blocks currently held = between the "acquired" log entry and the "released" log entry
 	// of the block's FIRST Unblock.  A repeated Unblock of a released block does not touch it.
 	held       int32
+	wantBlock  int32 // goroutines inside a BlockPluginSync call
+	acqs       int32 // blocks acquired so far
 	inSync     int32 // SyncFn invocations in progress
 	rets       int32 // SyncFn returns
 	total      int32 // containers created so far
+	progress   int32 // log entries so far
 	twice      int32 // blocks released a second time
 	twiceOther int32 // ... while another block was held
+	twiceLate  int32 // ... after another goroutine had acquired a block in between
 	abandon    int32 // a violation was seen: no further Unblock is issued, the run is dumped as it stands
+	stalled    int32
 	once       sync.Once
 	herr       atomic.Value
 }
@@ -119,9 +146,15 @@ func (r *slRun) parkIfAbandoned() {
 	}
 }
 
+// appendLocked: call with r.mu held.
+func (r *slRun) appendLocked(e logEv) {
+	r.log = append(r.log, e)
+	atomic.AddInt32(&r.progress, 1)
+}
+
 func (r *slRun) logEv(e logEv) {
 	r.mu.Lock()
-	r.log = append(r.log, e)
+	r.appendLocked(e)
 	r.mu.Unlock()
 }
 
@@ -135,7 +168,7 @@ func (r *slRun) syncFn(ctx context.Context, cb adaptation.SyncCB) error {
 	k := r.sess
 	r.sess++
 	snap := append([]string{}, r.store...)
-	r.log = append(r.log, logEv{Kind: "enter", sess: k, IDs: snap})
+	r.appendLocked(logEv{Kind: "enter", sess: k, IDs: snap})
 	r.mu.Unlock()
 
 	// the session number travels to the plugin inside the snapshot, which is how the log learns
@@ -151,7 +184,7 @@ func (r *slRun) syncFn(ctx context.Context, cb adaptation.SyncCB) error {
 		r.violation("%d sync block(s) held when SyncFn was about to return", h)
 	}
 	r.mu.Lock()
-	r.log = append(r.log, logEv{Kind: "sret", sess: k, OK: err == nil})
+	r.appendLocked(logEv{Kind: "sret", sess: k, OK: err == nil})
 	r.mu.Unlock()
 	atomic.AddInt32(&r.inSync, -1)
 	atomic.AddInt32(&r.rets, 1)
@@ -171,11 +204,24 @@ func (p *slPlugin) Synchronize(_ context.Context, pods []*api.PodSandbox, ctrs [
 	}
 	r := p.run
 	r.mu.Lock()
-	p.syncs++
-	p.sess = k
-	p.snapshot = ids
-	r.log = append(r.log, logEv{Kind: "srecv", P: p.name, IDs: ids, sess: k})
+	s := p.cur
+	s.syncs++
+	s.sess = k
+	s.snapshot = ids
+	r.appendLocked(logEv{Kind: "srecv", P: s.inst, IDs: ids, sess: k})
 	r.mu.Unlock()
+	switch p.mode {
+	case "syncerr":
+		return nil, errors.New("scripted synchronization failure")
+	case "syncdrop":
+		// the plugin goes away in the middle of its synchronisation
+		before := atomic.LoadInt32(&p.closes)
+		atomic.AddInt32(&p.stops, 1)
+		go p.stub.Stop()
+		for t0 := time.Now(); atomic.LoadInt32(&p.closes) == before && time.Since(t0) < 10*time.Second; {
+			time.Sleep(100 * time.Microsecond)
+		}
+	}
 	return nil, nil
 }
 
@@ -186,8 +232,9 @@ func (p *slPlugin) CreateContainer(_ context.Context, _ *api.PodSandbox, c *api.
 	}
 	r := p.run
 	r.mu.Lock()
-	p.creates = append(p.creates, c.Id)
-	r.log = append(r.log, logEv{Kind: "recv", G: g, P: p.name, C: c.Id})
+	s := p.cur
+	s.creates = append(s.creates, c.Id)
+	r.appendLocked(logEv{Kind: "recv", G: g, P: s.inst, C: c.Id})
 	r.mu.Unlock()
 	return nil, nil, nil
 }
@@ -199,19 +246,22 @@ type slCase struct {
 	Trace     []logEv     `json:"trace"`
 	Store     []string    `json:"store"`
 	Plugins   []slPlugObs `json:"plugins"`
+	Must      []string    `json:"must_be_registered"` // instances whose registration must be complete at the end of the log
 	Viol      []string    `json:"violations,omitempty"`
 	Abandoned bool        `json:"abandoned,omitempty"` // frozen after a violation and dumped as it stood
+	Stalled   bool        `json:"stalled,omitempty"`   // ... because nothing happened any more
 	Crash     string      `json:"crash,omitempty"`     // the runtime died inside the sync lock (no log survives)
-	Probe     bool        `json:"probe,omitempty"`
 	Twice     int         `json:"released_twice"`
 	TwiceOth  int         `json:"released_twice_while_another_block_held"`
+	TwiceLate int         `json:"released_twice_after_another_goroutine_acquired"`
+	SyncFails int         `json:"failed_synchronisations"`
+	Reregs    int         `json:"reregistrations"`
 	Spec      *slSpec     `json:"spec,omitempty"`
-	R, P, N   int
 }
 
 type slPlugObs struct {
-	Name       string   `json:"name"`
-	Registered bool     `json:"registered"`
+	Name       string   `json:"name"`       // the instance
+	Registered bool     `json:"registered"` // synchronised successfully and still connected
 	Snapshot   []string `json:"snapshot"`
 	Creates    []string `json:"creates"`
 }
@@ -236,6 +286,8 @@ func (e logEv) coq() string {
 		return fmt.Sprintf("LSyncRecv %s %s", coqfmt.Str(e.P), coqfmt.StrList(e.IDs))
 	case "sret":
 		return fmt.Sprintf("LSyncRet %s %s", coqfmt.Str(e.P), coqfmt.Bool(e.OK))
+	case "close":
+		return "LClose " + coqfmt.Str(e.P)
 	}
 	panic("unknown log event " + e.Kind)
 }
@@ -247,8 +299,11 @@ var slPod = &api.PodSandbox{Id: "pod0", Name: "pod0", Namespace: "default"}
 // acquire: "block acquired" is logged after BlockPluginSync returned.
 func (r *slRun) acquire(gn string) *adaptation.PluginSyncBlock {
 	r.parkIfAbandoned()
+	atomic.AddInt32(&r.wantBlock, 1)
 	b := r.a.BlockPluginSync()
+	atomic.AddInt32(&r.wantBlock, -1)
 	atomic.AddInt32(&r.held, 1)
+	atomic.AddInt32(&r.acqs, 1)
 	if atomic.LoadInt32(&r.inSync) != 0 {
 		r.violation("sync block acquired by %s while SyncFn in progress", gn)
 	}
@@ -269,7 +324,7 @@ func (r *slRun) create(gn, id string) {
 func (r *slRun) keep(gn, id string) {
 	r.mu.Lock()
 	r.store = append(r.store, id)
-	r.log = append(r.log, logEv{Kind: "store", G: gn, C: id})
+	r.appendLocked(logEv{Kind: "store", G: gn, C: id})
 	r.mu.Unlock()
 	atomic.AddInt32(&r.total, 1)
 }
@@ -289,39 +344,48 @@ func (r *slRun) release(gn string, b *adaptation.PluginSyncBlock) {
 // releaseAgain: a repeated Unblock of a block this goroutine already released (explicit Unblock on the
 // success path plus a deferred one: "Safe to call multiple times but only from a single goroutine").
 // It must not change anything: the held-block counter is NOT touched, whoever else holds a block
-// keeps holding it.
-func (r *slRun) releaseAgain(gn string, b *adaptation.PluginSyncBlock) {
+// keeps holding it.  acqsAtRelease: the number of blocks acquired when this block was released first.
+func (r *slRun) releaseAgain(gn string, b *adaptation.PluginSyncBlock, acqsAtRelease int32) {
 	r.parkIfAbandoned()
 	atomic.AddInt32(&r.twice, 1)
 	if atomic.LoadInt32(&r.held) > 0 {
 		atomic.AddInt32(&r.twiceOther, 1)
+		if atomic.LoadInt32(&r.acqs) != acqsAtRelease {
+			atomic.AddInt32(&r.twiceLate, 1)
+		}
 	}
 	r.logEv(logEv{Kind: "rel2", G: gn})
 	b.Unblock()
 }
 
-// createInBlock is one creation with its bookkeeping inside a sync block.
-func (r *slRun) createInBlock(gn, id string, twice bool) {
+// createInBlock is one creation with its bookkeeping inside a sync block.  twice: 0 the block is
+// released once; 1 a deferred second Unblock follows the first at once; 2 the deferred second Unblock
+// is issued only after ANOTHER goroutine has acquired a block (or 1 ms have passed: with a
+// registration waiting for the exclusive section nobody can).
+func (r *slRun) createInBlock(gn, id string, twice int) {
 	b := r.acquire(gn)
-	if twice {
-		defer r.releaseAgain(gn, b)
+	var at int32
+	if twice > 0 {
+		defer func() {
+			if twice == 2 {
+				for t0 := time.Now(); atomic.LoadInt32(&r.acqs) == at && time.Since(t0) < time.Millisecond; {
+					time.Sleep(10 * time.Microsecond)
+				}
+			}
+			r.releaseAgain(gn, b, at)
+		}()
 	}
 	r.create(gn, id)
 	r.keep(gn, id)
+	at = atomic.LoadInt32(&r.acqs)
 	r.release(gn, b)
 }
 
-// probe: two blocks are held, a plugin is waiting to be synchronised, the first block is released
-// TWICE while the second is in the middle of a creation (request relayed, bookkeeping not yet done).
-// The plugin must stay blocked until the second block is released.
-func (r *slRun) probe(startPlugin func(j int) chan error) (pending chan error) {
-	ba := r.acquire("ga")
-	bb := r.acquire("gb")
-	started := startPlugin(0)
-	// stub.Start returns once the plugin is configured: the runtime is then about to request the
-	// exclusive section.  Whether it has got that far does not matter for what follows (no property
-	// says that a plugin is configured while blocks are held): after a short wait the scenario goes on
-	// and the result of Start is collected at the end of the run.
+// waitConfigured: stub.Start returns once the plugin is configured: the runtime is then about to
+// request the exclusive section.  Whether it has got that far does not matter for what follows (no
+// property says that a plugin is configured while blocks are held): after a short wait the scenario
+// goes on and the result of Start is collected at the end of the run.
+func (r *slRun) waitConfigured(started chan error) (pending chan error) {
 	select {
 	case err := <-started:
 		if err != nil {
@@ -331,15 +395,50 @@ func (r *slRun) probe(startPlugin func(j int) chan error) (pending chan error) {
 		pending = started
 	}
 	time.Sleep(5 * time.Millisecond)
-	r.create("gb", "gb-c0")
-	r.create("ga", "ga-c0")
-	r.keep("ga", "ga-c0")
-	r.release("ga", ba)
-	r.releaseAgain("ga", ba)
-	// gb still holds its block: a synchronisation entered now is flagged by syncFn
+	return pending
+}
+
+// window: a block is still held; a synchronisation entered now is flagged by syncFn.
+func (r *slRun) window() {
 	for t0 := time.Now(); time.Since(t0) < slProbeGrace; time.Sleep(time.Millisecond) {
 		r.parkIfAbandoned()
 	}
+}
+
+// probe 1: two blocks are held, a plugin is waiting to be synchronised, the first block is released
+// TWICE while the second is in the middle of a creation (request relayed, bookkeeping not yet done).
+// The plugin must stay out until the second block is released.
+func (r *slRun) probeHeldTogether(startPlugin func(j int) chan error) (pending chan error) {
+	ba := r.acquire("ga")
+	bb := r.acquire("gb")
+	pending = r.waitConfigured(startPlugin(0))
+	r.create("gb", "gb-c0")
+	r.create("ga", "ga-c0")
+	r.keep("ga", "ga-c0")
+	at := atomic.LoadInt32(&r.acqs)
+	r.release("ga", ba)
+	r.releaseAgain("ga", ba, at)
+	r.window()
+	r.keep("gb", "gb-c0")
+	r.release("gb", bb)
+	return pending
+}
+
+// probe 2: the first block is released; only THEN another request takes a block (all from one
+// goroutine: a runtime that recycles block handles hands it the first one's), a plugin connects and
+// waits, the second request relays its creation, and the first block's deferred Unblock is issued:
+// stale, it must not touch the block of the second request.
+func (r *slRun) probeInterleaved(startPlugin func(j int) chan error) (pending chan error) {
+	ba := r.acquire("ga")
+	r.create("ga", "ga-c0")
+	r.keep("ga", "ga-c0")
+	at := atomic.LoadInt32(&r.acqs)
+	r.release("ga", ba)
+	bb := r.acquire("gb")
+	pending = r.waitConfigured(startPlugin(0))
+	r.create("gb", "gb-c0")
+	r.releaseAgain("ga", ba, at)
+	r.window()
 	r.keep("gb", "gb-c0")
 	r.release("gb", bb)
 	return pending
@@ -347,16 +446,20 @@ func (r *slRun) probe(startPlugin func(j int) chan error) (pending chan error) {
 
 // buildCase: call with r.mu held.
 func (r *slRun) buildCase(abandoned bool) *slCase {
-	// resolve sync sessions to plugin names through what the plugins received
+	// resolve sync sessions to plugin instances through what the plugins received
 	sessName := map[int]string{}
 	for _, p := range r.plugins {
-		if p.sess >= 0 {
-			sessName[p.sess] = p.name
+		for _, s := range p.sessions {
+			if s.sess >= 0 {
+				sessName[s.sess] = s.inst
+			}
 		}
 	}
 	okSess := map[int]bool{}
-	cs := &slCase{Store: append([]string{}, r.store...), Viol: append([]string{}, r.viol...), R: r.spec.R, P: r.spec.P, N: r.spec.N,
-		Abandoned: abandoned, Probe: r.spec.Probe, Twice: int(atomic.LoadInt32(&r.twice)), TwiceOth: int(atomic.LoadInt32(&r.twiceOther))}
+	stalled := atomic.LoadInt32(&r.stalled) != 0
+	cs := &slCase{Store: append([]string{}, r.store...), Viol: append([]string{}, r.viol...), Must: []string{},
+		Abandoned: abandoned, Stalled: stalled, Twice: int(atomic.LoadInt32(&r.twice)), TwiceOth: int(atomic.LoadInt32(&r.twiceOther)),
+		TwiceLate: int(atomic.LoadInt32(&r.twiceLate))}
 	for _, e := range r.log {
 		switch e.Kind {
 		case "enter", "sret":
@@ -365,17 +468,38 @@ func (r *slRun) buildCase(abandoned bool) *slCase {
 				n = "?" + strconv.Itoa(e.sess)
 			}
 			e.P = n
-			if e.Kind == "sret" && e.OK {
-				okSess[e.sess] = true
+			if e.Kind == "sret" {
+				if e.OK {
+					okSess[e.sess] = true
+				} else {
+					cs.SyncFails++
+				}
 			}
 		}
 		cs.Trace = append(cs.Trace, e)
 	}
+	// "once the last block is released pending registrations complete": judged when the log ends with no
+	// block held and no synchronisation in progress — at the regular end of a run, and in a run that got stuck
+	quiet := atomic.LoadInt32(&r.held) == 0 && atomic.LoadInt32(&r.inSync) == 0 && (!abandoned || stalled)
 	for _, p := range r.plugins {
-		cs.Plugins = append(cs.Plugins, slPlugObs{Name: p.name, Registered: p.sess >= 0 && okSess[p.sess],
-			Snapshot: append([]string{}, p.snapshot...), Creates: append([]string{}, p.creates...)})
-		if p.syncs > 1 || (!abandoned && p.syncs != 1) {
-			cs.Viol = append(cs.Viol, fmt.Sprintf("plugin %s was synchronized %d times", p.name, p.syncs))
+		for k, s := range p.sessions {
+			live := p.mode == "ok" && !s.stopped && k == len(p.sessions)-1
+			synced := s.sess >= 0 && okSess[s.sess]
+			snap := []string{} // what an instance was sent in a synchronisation that failed is void (it is in the log)
+			if synced {
+				snap = append(snap, s.snapshot...)
+			}
+			cs.Plugins = append(cs.Plugins, slPlugObs{Name: s.inst, Registered: live && synced,
+				Snapshot: snap, Creates: append([]string{}, s.creates...)})
+			if live && s.started && quiet {
+				cs.Must = append(cs.Must, s.inst)
+			}
+			if s.syncs > 1 || (!abandoned && s.syncs != 1) {
+				cs.Viol = append(cs.Viol, fmt.Sprintf("plugin %s was synchronized %d times", s.inst, s.syncs))
+			}
+			if k > 0 {
+				cs.Reregs++
+			}
 		}
 	}
 	return cs
@@ -406,8 +530,38 @@ func (r *slRun) dumpAndExit() {
 	os.Exit(0)
 }
 
+// watchdog: after a violation, when nothing happens any more, or when the run does not end, the log is
+// written out as it stands.
+func (r *slRun) watchdog(base int32) {
+	t0, last, lastAt := time.Now(), int32(-1), time.Now()
+	for {
+		time.Sleep(2 * time.Millisecond)
+		if atomic.LoadInt32(&r.abandon) != 0 {
+			// let a synchronisation in progress return, so that the log shows it whole
+			for dl := time.Now().Add(3 * time.Second); atomic.LoadInt32(&r.inSync) != 0 && time.Now().Before(dl); {
+				time.Sleep(time.Millisecond)
+			}
+			time.Sleep(20 * time.Millisecond)
+			r.dumpAndExit()
+		}
+		if p := atomic.LoadInt32(&r.progress); p != last {
+			last, lastAt = p, time.Now()
+		}
+		if stuck, over := time.Since(lastAt) > slStallBound, time.Since(t0) > slRunBound; stuck || over {
+			atomic.StoreInt32(&r.stalled, 1)
+			what := fmt.Sprintf("nothing happened for %v", slStallBound)
+			if !stuck {
+				what = fmt.Sprintf("the run was not over after %v", slRunBound)
+			}
+			r.violation("%s: %d sync block(s) held, %d goroutine(s) waiting in BlockPluginSync, %d synchronisation(s) in progress, %d synchronisation(s) done: a registration does not complete / a sync block cannot be taken although no block is held",
+				what, atomic.LoadInt32(&r.held), atomic.LoadInt32(&r.wantBlock), atomic.LoadInt32(&r.inSync), atomic.LoadInt32(&r.rets)-base)
+		}
+	}
+}
+
 // oneSyncLockRun: R goroutines x N creations inside sync blocks (some released twice), P stubs
-// registering at points of the creation stream chosen by the PRNG, one noise goroutine.
+// registering at points of the creation stream chosen by the PRNG (some failing their synchronisation),
+// one noise goroutine; then plugins that disconnect and register again under the same name.
 func oneSyncLockRun(spec slSpec, out string) (*slCase, error) {
 	R, P, N, starts := spec.R, spec.P, spec.N, spec.Starts
 	sock := filepath.Join(spec.Dir, "nri.sock")
@@ -427,26 +581,7 @@ func oneSyncLockRun(spec slSpec, out string) (*slCase, error) {
 	r.log = nil
 	r.mu.Unlock()
 	base := atomic.LoadInt32(&r.rets)
-
-	// watchdog: after a violation, or when the run does not end, the log is written out as it stands
-	go func() {
-		t0 := time.Now()
-		for {
-			time.Sleep(2 * time.Millisecond)
-			if atomic.LoadInt32(&r.abandon) != 0 {
-				// let a synchronisation in progress return, so that the log shows it whole
-				for dl := time.Now().Add(3 * time.Second); atomic.LoadInt32(&r.inSync) != 0 && time.Now().Before(dl); {
-					time.Sleep(time.Millisecond)
-				}
-				time.Sleep(20 * time.Millisecond)
-				r.dumpAndExit()
-			}
-			if time.Since(t0) > slRunBound {
-				r.violation("the run was not over after %v: %d of %d registrations synchronized, %d sync block(s) held",
-					slRunBound, atomic.LoadInt32(&r.rets)-base, P, atomic.LoadInt32(&r.held))
-			}
-		}
-	}()
+	go r.watchdog(base)
 
 	ctx := context.Background()
 	stop := make(chan struct{})
@@ -471,25 +606,45 @@ func oneSyncLockRun(spec slSpec, out string) (*slCase, error) {
 	// plugins
 	r.plugins = make([]*slPlugin, P)
 	for j := 0; j < P; j++ {
-		p := &slPlugin{run: r, name: fmt.Sprintf("%02d-p%d", (j*37)%100, j), sess: -1}
+		p := &slPlugin{run: r, name: fmt.Sprintf("%02d-p%d", (j*37)%100, j), mode: spec.Modes[j]}
+		p.cur = &slSession{inst: p.name, sess: -1}
+		p.sessions = []*slSession{p.cur}
 		st, err := stub.New(p, stub.WithPluginName(fmt.Sprintf("p%d", j)), stub.WithPluginIdx(fmt.Sprintf("%02d", (j*37)%100)),
-			stub.WithSocketPath(sock), stub.WithOnClose(func() { atomic.StoreInt32(&p.closed, 1) }))
+			stub.WithSocketPath(sock), stub.WithOnClose(func() { atomic.AddInt32(&p.closes, 1) }))
 		if err != nil {
 			return nil, err
 		}
 		p.stub = st
 		r.plugins[j] = p
 	}
+	expected := int32(0) // connections that go through SyncFn
 	startPlugin := func(j int) chan error {
 		ch := make(chan error, 1)
-		go func() { ch <- r.plugins[j].stub.Start(ctx) }()
+		p := r.plugins[j]
+		r.mu.Lock()
+		s := p.cur
+		r.mu.Unlock()
+		go func() {
+			err := p.stub.Start(ctx)
+			if err == nil {
+				r.mu.Lock()
+				s.started = true
+				r.mu.Unlock()
+			}
+			ch <- err
+		}()
 		return ch
 	}
 	first := 0
 	var pwg sync.WaitGroup
-	if spec.Probe {
+	if spec.Probe != 0 {
 		first = 1
-		if pending := r.probe(startPlugin); pending != nil {
+		expected++
+		probe := r.probeHeldTogether
+		if spec.Probe == 2 {
+			probe = r.probeInterleaved
+		}
+		if pending := probe(startPlugin); pending != nil {
 			pwg.Add(1)
 			go func() {
 				defer pwg.Done()
@@ -501,6 +656,7 @@ func oneSyncLockRun(spec slSpec, out string) (*slCase, error) {
 	}
 	for j := first; j < P; j++ {
 		pwg.Add(1)
+		expected++
 		go func(j int) {
 			defer pwg.Done()
 			for atomic.LoadInt32(&r.total) < int32(starts[j]) {
@@ -520,7 +676,13 @@ func oneSyncLockRun(spec slSpec, out string) (*slCase, error) {
 			gn := "g" + strconv.Itoa(g)
 			rnd := rand.New(rand.NewSource(spec.DblSeed + int64(g)*7919))
 			for i := 0; i < N; i++ {
-				r.createInBlock(gn, gn+"-c"+strconv.Itoa(i), rnd.Intn(100) < 45)
+				twice := 0
+				if x := rnd.Intn(100); x < 30 {
+					twice = 1
+				} else if x < 45 {
+					twice = 2
+				}
+				r.createInBlock(gn, gn+"-c"+strconv.Itoa(i), twice)
 				if i%3 == g%3 {
 					time.Sleep(time.Duration(30*(g+1)) * time.Microsecond)
 				}
@@ -529,26 +691,60 @@ func oneSyncLockRun(spec slSpec, out string) (*slCase, error) {
 	}
 	wg.Wait()
 	pwg.Wait()
-	// every block is released: pending registrations complete.  Then one more block: acquired only after
-	// the last finishedPluginSync, i.e. after the last activation
-	deadline := time.Now().Add(60 * time.Second)
-	for atomic.LoadInt32(&r.rets)-base < int32(P) && time.Now().Before(deadline) {
-		time.Sleep(200 * time.Microsecond)
+	// every block is released: pending registrations complete (a registration that does not is reported
+	// by the watchdog: nothing is logged while waiting here).  Then one more block: acquired only
+	// after the last finishedPluginSync, i.e. after the last activation
+	settle := func() {
+		for atomic.LoadInt32(&r.rets)-base < expected {
+			r.parkIfAbandoned()
+			time.Sleep(200 * time.Microsecond)
+		}
+		r.parkIfAbandoned()
+		atomic.AddInt32(&r.wantBlock, 1)
+		b := a.BlockPluginSync()
+		atomic.AddInt32(&r.wantBlock, -1)
+		b.Unblock()
 	}
-	if got := atomic.LoadInt32(&r.rets) - base; got < int32(P) {
-		r.violation("only %d of %d registrations were synchronized within 60s of the last sync block being released", got, P)
-		select {} // the watchdog writes the run out
-	}
-	r.parkIfAbandoned()
-	a.BlockPluginSync().Unblock()
-	// a tail of creations that every registered plugin must see as requests
-	for i := 0; i < 2; i++ {
-		r.createInBlock("gt", "gt-c"+strconv.Itoa(i), i == 1)
-	}
+	settle()
 	close(stop)
 	nwg.Wait()
+
+	// plugins that disconnect and register again under the same index and name, the runtime being quiet
+	for n, rs := range spec.Restarts {
+		p := r.plugins[rs.Plugin]
+		before := atomic.LoadInt32(&p.closes)
+		atomic.AddInt32(&p.stops, 1)
+		p.stub.Stop()
+		for t0 := time.Now(); atomic.LoadInt32(&p.closes) == before; time.Sleep(100 * time.Microsecond) {
+			if time.Since(t0) > 10*time.Second {
+				return nil, fmt.Errorf("stub of %s did not report its connection closed within 10s of Stop", p.name)
+			}
+		}
+		r.mu.Lock()
+		p.cur.stopped = true
+		r.appendLocked(logEv{Kind: "close", P: p.cur.inst})
+		r.mu.Unlock()
+		time.Sleep(10 * time.Millisecond) // the runtime's end of the connection notices, too
+		if rs.Control {
+			r.createInBlock("gt", "gt-r"+strconv.Itoa(n), 0)
+		}
+		r.mu.Lock()
+		p.cur = &slSession{inst: p.name + "#" + strconv.Itoa(len(p.sessions)+1), sess: -1}
+		p.sessions = append(p.sessions, p.cur)
+		r.mu.Unlock()
+		expected++
+		if err := <-startPlugin(rs.Plugin); err != nil {
+			return nil, fmt.Errorf("stub of %s, second start: %w", p.name, err)
+		}
+		settle()
+	}
+
+	// a tail of creations that every registered plugin must see as requests
+	for i := 0; i < 2; i++ {
+		r.createInBlock("gt", "gt-c"+strconv.Itoa(i), i)
+	}
 	for _, p := range r.plugins {
-		if atomic.LoadInt32(&p.closed) != 0 {
+		if p.mode == "ok" && atomic.LoadInt32(&p.closes) != atomic.LoadInt32(&p.stops) {
 			r.herr.Store(fmt.Errorf("plugin %s lost its connection during the run", p.name))
 		}
 	}
@@ -592,7 +788,7 @@ func syncLockHelper(args []string) int {
 }
 
 // runSyncLockChild executes one run in a child process and interprets how it ended.
-func runSyncLockChild(c *hx.Ctx, exe string, i int, spec slSpec) (*slCase, error) {
+func runSyncLockChild(exe string, i int, spec slSpec) (*slCase, error) {
 	dir, err := scratch("sl")
 	if err != nil {
 		return nil, err
@@ -632,7 +828,7 @@ func runSyncLockChild(c *hx.Ctx, exe string, i int, spec slSpec) (*slCase, error
 		if j := strings.IndexByte(line, '\n'); j > 0 {
 			line = line[:j]
 		}
-		return &slCase{Crash: line, Spec: &spec, Probe: spec.Probe, R: spec.R, P: spec.P, N: spec.N,
+		return &slCase{Crash: line, Spec: &spec, Must: []string{},
 			Viol: []string{"the runtime died in the plugin sync lock (" + line + "): an Unblock released a lock its block did not hold"}}, nil
 	}
 	// anything else (including a data race report of a -race build) is passed on as it is
@@ -640,10 +836,13 @@ func runSyncLockChild(c *hx.Ctx, exe string, i int, spec slSpec) (*slCase, error
 	return nil, fmt.Errorf("synclock helper for run %d failed: %v", i, runErr)
 }
 
-// exactlyOnce is the Go twin of Spec/SyncLockSpec.v: exactly_once_b.
+// exactlyOnce is the Go twin of Run/RunSyncLock.v: holds_sync (Spec/SyncLockSpec.v: exactly_once_b for
+// every live instance, and every instance of Must registered).
 func exactlyOnce(cs *slCase) []string {
 	var bad []string
+	reg := map[string]bool{}
 	for _, p := range cs.Plugins {
+		reg[p.Name] = p.Registered
 		if !p.Registered {
 			continue
 		}
@@ -655,15 +854,24 @@ func exactlyOnce(cs *slCase) []string {
 		for _, id := range p.Creates {
 			cr[id]++
 		}
+		for _, id := range p.Creates {
+			if cr[id] > 1 {
+				bad = append(bad, fmt.Sprintf("%s: %s created %d times", p.Name, id, cr[id]))
+				cr[id] = 1
+			}
+		}
 		for _, id := range cs.Store {
 			switch {
 			case snap[id] && cr[id] > 0:
 				bad = append(bad, fmt.Sprintf("%s: %s both in the snapshot and created", p.Name, id))
 			case !snap[id] && cr[id] == 0:
 				bad = append(bad, fmt.Sprintf("%s: %s neither in the snapshot nor created", p.Name, id))
-			case cr[id] > 1:
-				bad = append(bad, fmt.Sprintf("%s: %s created %d times", p.Name, id, cr[id]))
 			}
+		}
+	}
+	for _, n := range cs.Must {
+		if !reg[n] {
+			bad = append(bad, fmt.Sprintf("%s: its registration is not complete although no sync block is held", n))
 		}
 	}
 	return bad
@@ -678,10 +886,15 @@ func driveSyncLock(c *hx.Ctx) error {
 		"sync_case", "corr_sync", "holds_sync", 8)
 	rnd := c.Rand("synclock")
 	runs := c.Pick(40, 400)
-	overlapped, unregistered, failing, twiceOther, probes := 0, 0, 0, 0, 0
-	for i := 0; i < runs && failing < slMaxFailing; i++ {
+	overlapped, failing, twiceOther, twiceLate, syncFails, reregs, reregServed := 0, 0, 0, 0, 0, 0, 0
+	probes := map[int]int{}
+	stalled := false
+	for i := 0; i < runs && failing < slMaxFailing && !stalled; i++ {
 		R := 2 + rnd.Intn(c.Pick(4, 8))
 		P := 1 + rnd.Intn(c.Pick(5, 9))
+		if i < 4 && P < 3 {
+			P = 3
+		}
 		N := c.Pick(6, 12) + rnd.Intn(c.Pick(10, 24))
 		starts := make([]int, P)
 		for j := range starts {
@@ -692,16 +905,45 @@ func driveSyncLock(c *hx.Ctx) error {
 				starts[j] = R * N / 2
 			}
 		}
-		spec := slSpec{R: R, P: P, N: N, Starts: starts, DblSeed: rnd.Int63(), Probe: i == 0 || rnd.Intn(2) == 0}
-		cs, err := runSyncLockChild(c, exe, i, spec)
+		// plugin 0 is always healthy (it is the probe's and the restarts' plugin); the others fail their
+		// synchronisation now and then, the first runs make sure both ways of failing occur, early in the stream
+		modes := make([]string, P)
+		for j := range modes {
+			modes[j] = "ok"
+			if x := rnd.Intn(100); j > 0 && x < 12 {
+				modes[j] = "syncerr"
+			} else if j > 0 && x < 20 {
+				modes[j] = "syncdrop"
+			}
+		}
+		switch i {
+		case 2:
+			modes[1], starts[1] = "syncerr", 1
+		case 3:
+			modes[1], starts[1] = "syncdrop", 1
+		}
+		probe := 0
+		switch x := rnd.Intn(4); {
+		case i == 0 || x == 0:
+			probe = 1
+		case i == 1 || x == 1:
+			probe = 2
+		}
+		var restarts []slRestart
+		switch x := rnd.Intn(6); {
+		case i == 1 || x < 2:
+			restarts = []slRestart{{Plugin: 0}}
+		case i == 3 || x == 2:
+			restarts = []slRestart{{Plugin: 0, Control: true}}
+		}
+		spec := slSpec{R: R, P: P, N: N, Starts: starts, Modes: modes, DblSeed: rnd.Int63(), Probe: probe, Restarts: restarts}
+		cs, err := runSyncLockChild(exe, i, spec)
 		if err != nil {
 			return fmt.Errorf("run %d: %w", i, err)
 		}
 		c.Count("synclock.runs", 1)
-		if spec.Probe {
-			probes++
-			c.Count("synclock.runs_with_probe", 1)
-		}
+		probes[probe]++
+		c.Count(fmt.Sprintf("synclock.runs_with_probe_%d", probe), 1)
 		if cs.Crash != "" {
 			failing++
 			c.Count("synclock.runs_runtime_died_in_sync_lock", 1)
@@ -724,46 +966,60 @@ func driveSyncLock(c *hx.Ctx) error {
 				nontrivial = true
 				overlapped++
 			}
-			if !p.Registered && !cs.Abandoned {
-				unregistered++
+			if p.Registered && strings.Contains(p.Name, "#") && len(p.Creates) >= 2 {
+				reregServed++
 			}
 		}
-		sh.Add(fmt.Sprintf("{| sc_trace := %s; sc_store := %s; sc_plugins := %s |}",
-			coqfmt.List(tr), coqfmt.StrList(cs.Store), coqfmt.List(pos)), cs)
+		sh.Add(fmt.Sprintf("{| sc_trace := %s; sc_store := %s; sc_plugins := %s; sc_must := %s |}",
+			coqfmt.List(tr), coqfmt.StrList(cs.Store), coqfmt.List(pos), coqfmt.StrList(cs.Must)), cs)
 		c.Eval(fmt.Sprint("synclock/", i), nontrivial)
 		c.Count("synclock.log_events", len(cs.Trace))
 		c.Count("synclock.containers", len(cs.Store))
-		c.Count("synclock.plugins", len(cs.Plugins))
+		c.Count("synclock.plugin_instances", len(cs.Plugins))
 		c.Count("synclock.blocks_released_twice", cs.Twice)
 		c.Count("synclock.blocks_released_twice_while_another_block_held", cs.TwiceOth)
+		c.Count("synclock.blocks_released_twice_after_another_goroutine_acquired", cs.TwiceLate)
+		c.Count("synclock.synchronisations_failed", cs.SyncFails)
+		c.Count("synclock.reregistrations_same_name", cs.Reregs)
 		twiceOther += cs.TwiceOth
+		twiceLate += cs.TwiceLate
+		syncFails += cs.SyncFails
+		reregs += cs.Reregs
 		if cs.Abandoned {
 			c.Count("synclock.runs_frozen_after_violation", 1)
+		}
+		if cs.Stalled {
+			stalled = true // every further run would wait out the same bound: the verdict is settled
+			c.Count("synclock.runs_stuck", 1)
 		}
 		if bad := exactlyOnce(cs); len(bad) > 0 || len(cs.Viol) > 0 {
 			failing++
 			c.ImplFail("synclock", strings.Join(append(bad, cs.Viol...), "; "), cs)
 		}
 		if i < 2 {
-			c.Sample(map[string]interface{}{"R": R, "P": P, "N": N, "probe": spec.Probe, "log_events": len(cs.Trace),
+			c.Sample(map[string]interface{}{"R": R, "P": P, "N": N, "probe": probe, "modes": modes, "restarts": restarts, "log_events": len(cs.Trace),
 				"released_twice": cs.Twice, "released_twice_while_another_block_held": cs.TwiceOth, "plugins": cs.Plugins[:1]}, 4)
 		}
 	}
 	c.Count("synclock.plugins_registered_mid_stream", overlapped)
+	c.Count("synclock.reregistered_instances_served_later_creations", reregServed)
 	// target shapes of the stream — judged only when no run failed (a failing run is the result then)
 	if failing == 0 {
 		if overlapped == 0 {
 			c.HarnessError("synclock: no plugin registered while containers were being created")
 		}
-		if unregistered > 0 {
-			c.HarnessError("synclock: %d plugins did not complete registration", unregistered)
+		if twiceOther == 0 || twiceLate == 0 || probes[1] == 0 || probes[2] == 0 {
+			c.HarnessError("synclock: blocks released twice while another block was held: %d, after another goroutine acquired: %d, probes: %v", twiceOther, twiceLate, probes)
 		}
-		if twiceOther == 0 || probes == 0 {
-			c.HarnessError("synclock: no block was released twice while another block was held (%d), or no probe ran (%d)", twiceOther, probes)
+		if syncFails < 2 {
+			c.HarnessError("synclock: only %d failing synchronisations", syncFails)
+		}
+		if reregs < 2 || reregServed < 2 {
+			c.HarnessError("synclock: %d re-registrations under the same name, %d of them served later creations", reregs, reregServed)
 		}
 	} else {
 		c.Count("synclock.failing_runs", failing)
 	}
-	c.Stats.Rule = "synclock: every run in a child process (a runtime that dies inside its sync lock is an observation): R goroutines x N CreateContainer requests inside BlockPluginSync/Unblock on one real Adaptation while P real stubs register at PRNG-chosen points of the creation stream (every 8th run: all at once) and a noise goroutine fires StartContainer outside any block; about 45% of the blocks are released TWICE (explicit Unblock plus a deferred one, the use the doc comment allows) while the other goroutines hold theirs; the held-block counter and the log count a block as released at its first Unblock only; about half of the runs start with a probe: two blocks held, a plugin waiting, the first block released twice while the second is between relaying its creation and its bookkeeping, and must keep the plugin out for a further 100 ms; non-trivial = some plugin completed registration with a non-empty snapshot and more than two creation requests"
+	c.Stats.Rule = "synclock: every run in a child process (a runtime that dies inside its sync lock is an observation): R goroutines x N CreateContainer requests inside BlockPluginSync/Unblock on one real Adaptation while P real stubs register at PRNG-chosen points of the creation stream (every 8th run: all at once) and a noise goroutine fires StartContainer outside any block; about 20% of the plugins other than the first FAIL their synchronisation (handler error, or the plugin disconnects during it) and the others must still be registered and blocks obtainable; about 45% of the blocks are released TWICE (explicit Unblock plus a deferred one, the use the doc comment allows), a third of those only after another goroutine has acquired a block; the held-block counter and the log count a block as released at its first Unblock only; half of the runs start with a probe (1: two blocks held, a plugin waiting, the first released twice while the second is between relaying its creation and its bookkeeping; 2: the first block released, THEN a second one taken, a plugin waiting, then the first one's stale second Unblock) that must keep the plugin out for a further 100 ms; half of the runs end with the first plugin disconnecting and registering again under the same index and name with no request in between (a third of those: one request in between), followed by creations the fresh instance must be sent; a run in which nothing is logged for 20 s is dumped as it stands (stuck registrations / blocks are an observation); non-trivial = some plugin completed registration with a non-empty snapshot and more than two creation requests"
 	return nil
 }
